@@ -56,7 +56,9 @@ impl<'r> Gen<'r> {
             let mut all = self.roles.clone();
             all.push((idx, doc.clone()));
             let listed = Self::listed(&doc, &all);
-            let patterns: Vec<String> = listed.iter().map(|i| self.names[*i].clone()).chain(std::iter::once("never-listed".to_string())).collect();
+            // (path patterns are matched against resolved names)
+            let patterns: Vec<String> = listed.iter().map(|i| tough::TargetName::new(self.names[*i].clone()).map(|t| t.resolved().to_string()).unwrap_or_else(|_| self.names[*i].clone()))
+                .chain(std::iter::once("never-listed".to_string())).collect();
             roles.push(ADRole { name: idx, ids: vec![11], thr: 1, patterns, hash_prefixes: vec![] });
             self.roles.push((idx, doc));
         }
@@ -146,7 +148,14 @@ async fn main() {
         r.shuffle(&mut tn);
         let k = r.range(1, 6) as usize;
         // the last `spare` names are added by the update
-        let names: Vec<String> = tn[..k + 2].iter().map(|s| s.to_string()).collect();
+        let mut names: Vec<String> = tn[..k + 2].iter().map(|s| s.to_string()).collect();
+        // a quarter of the repositories: an existing target under a path-like name, and the update adds a target whose
+        // (different) name resolves to the same path - two targets, the old one must stay
+        let same_resolved = r.chance(1, 4);
+        if same_resolved {
+            names[0] = "pkg/../tool.txt".to_string();
+            names[k] = "tool.txt".to_string();
+        }
         let mut rn: Vec<&str> = ROLE_NAMES.to_vec();
         r.shuffle(&mut rn);
         let role_names: Vec<String> = rn.iter().take(8).map(|s| s.to_string()).collect();
@@ -193,7 +202,8 @@ async fn main() {
         let src = work.path().join("src");
         dump(&mem, &src);
         // the update
-        let added: Vec<usize> = (k..k + 2).filter(|_| r.chance(1, 2)).collect();
+        let mut added: Vec<usize> = (k..k + 2).filter(|_| r.chance(1, 2)).collect();
+        if same_resolved && !added.contains(&k) { added.insert(0, k); }
         let newv = [r.range(100, 200), r.range(100, 200), r.range(100, 200)];
         let new_exp = world.base + chrono::Duration::days(30);
         let mut steps: Vec<Value> = Vec::new();
